@@ -21,9 +21,12 @@ Record sys := {
   phalt : option (N * (N * N)); (* halt lock granted by the primary: id and position at grant *)
   rlock : option (N * (N * N)); (* halt lock the replica believes it holds *)
   rlog : log;
-  olog : log
+  olog : log;
+  ohalt : option (N * (N * N))  (* halt lock a former primary still holds on its own database after the role moved on:
+                                   it pins that node's write lock, so the node cannot follow the stream until the lock
+                                   expires (store.go monitorLease: Recover after monitorLeaseAsPrimary waits for it) *)
 }.
-Definition init : sys := {| plog := []; phalt := None; rlock := None; rlog := []; olog := [] |}.
+Definition init : sys := {| plog := []; phalt := None; rlock := None; rlog := []; olog := []; ohalt := None |}.
 
 Inductive ev :=
 | EGrant (id : N) (delivered : bool)   (* R asks for the lock; the grant's response reaches R or is lost *)
@@ -36,6 +39,8 @@ Inductive ev :=
 | ECommitWal (post : N) (delivered : bool) (* the same commit on a WAL-mode database: SQLite has finished writing when LiteFS
                                           forwards (at the release of the WAL write lock), so a forward that fails or whose answer
                                           is lost cannot be rolled back - CommitWAL calls Exit and R restarts (db.go CommitWAL) *)
+| EHandoff                             (* P hands the lease to O (POST /handoff); O has to be connected, which a former primary
+                                          that still holds a halt lock is not.  The model hands over to a caught-up O only. *)
 | ERestart.                            (* R's process dies and restarts: what it believed about the lock is gone, its log is durable
                                           (in WAL mode a failed forwarded commit ends in exactly this: CommitWAL calls Exit) *)
 
@@ -54,19 +59,32 @@ Definition grant (s : sys) (id : N) : sys * option (N * (N * N)) :=
   else match phalt s with
        | Some (i, p) => if i =? id then (s, Some (i, p)) else (s, None)      (* same id: same lock; other id: times out *)
        | None => let l := (id, pos_of (plog s)) in
-                 ({| plog := plog s; phalt := Some l; rlock := rlock s; rlog := rlog s; olog := olog s |}, Some l)
+                 ({| plog := plog s; phalt := Some l; rlock := rlock s; rlog := rlog s; olog := olog s; ohalt := ohalt s |}, Some l)
        end.
 
 (* POST /tx on the primary *)
 Definition forward (s : sys) (id : N) (e : entry) : sys * bool :=
   if holds (phalt s) id && extends (plog s) e
-  then ({| plog := e :: plog s; phalt := phalt s; rlock := rlock s; rlog := rlog s; olog := olog s |}, true)
+  then ({| plog := e :: plog s; phalt := phalt s; rlock := rlock s; rlog := rlog s; olog := olog s; ohalt := ohalt s |}, true)
   else (s, false).
 
 Definition release_primary (s : sys) (id : N) : sys :=
-  if holds (phalt s) id then {| plog := plog s; phalt := None; rlock := rlock s; rlog := rlog s; olog := olog s |} else s.
+  if holds (phalt s) id then {| plog := plog s; phalt := None; rlock := rlock s; rlog := rlog s; olog := olog s; ohalt := ohalt s |} else s.
 
-Definition restart (s : sys) : sys := {| plog := plog s; phalt := phalt s; rlock := None; rlog := rlog s; olog := olog s |}.
+Definition restart (s : sys) : sys := {| plog := plog s; phalt := phalt s; rlock := None; rlog := rlog s; olog := olog s; ohalt := ohalt s |}.
+
+(* the roles swap: O's log is the primary's from now on, the former primary becomes the observer and keeps the halt
+   lock it had granted; the new primary has granted none.  R keeps believing whatever it believed. *)
+Fixpoint log_eqb (a b : log) : bool :=
+  match a, b with
+  | [], [] => true
+  | x :: a', y :: b' => (e_txid x =? e_txid y) && (e_pre x =? e_pre y) && (e_post x =? e_post y) && (e_node x =? e_node y) && log_eqb a' b'
+  | _, _ => false
+  end.
+Definition can_handoff (s : sys) : bool :=
+  match ohalt s with Some _ => false | None => log_eqb (olog s) (plog s) end.
+Definition handoff (s : sys) : sys :=
+  {| plog := olog s; phalt := None; rlock := rlock s; rlog := rlog s; olog := plog s; ohalt := phalt s |}.
 
 Definition step (s : sys) (e : ev) : sys * N :=
   match e with
@@ -77,15 +95,15 @@ Definition step (s : sys) (e : ev) : sys * N :=
     | Some l =>
       if negb delivered then (s1, c_lost)
       else if (fst (snd l) =? fst (pos_of (rlog s1))) && (snd (snd l) =? snd (pos_of (rlog s1)))
-           then ({| plog := plog s1; phalt := phalt s1; rlock := Some l; rlog := rlog s1; olog := olog s1 |}, c_ok)
+           then ({| plog := plog s1; phalt := phalt s1; rlock := Some l; rlog := rlog s1; olog := olog s1; ohalt := ohalt s1 |}, c_ok)
            else (* WaitPosExact fails: R releases at the primary but keeps believing (db.go:377) *)
              let s2 := release_primary s1 (fst l) in
-             ({| plog := plog s2; phalt := phalt s2; rlock := Some l; rlog := rlog s2; olog := olog s2 |}, c_refused)
+             ({| plog := plog s2; phalt := phalt s2; rlock := Some l; rlog := rlog s2; olog := olog s2; ohalt := ohalt s2 |}, c_refused)
     end
   | ELocalWrite post =>
     match phalt s with
     | Some _ => (s, c_refused)                     (* the halt lock pins the write lock *)
-    | None => ({| plog := next_entry (plog s) post 0 :: plog s; phalt := None; rlock := rlock s; rlog := rlog s; olog := olog s |}, c_ok)
+    | None => ({| plog := next_entry (plog s) post 0 :: plog s; phalt := None; rlock := rlock s; rlog := rlog s; olog := olog s; ohalt := ohalt s |}, c_ok)
     end
   | ECheckpoint => match phalt s with Some _ => (s, c_refused) | None => (s, c_ok) end
   | ECommit post delivered =>
@@ -96,17 +114,17 @@ Definition step (s : sys) (e : ev) : sys * N :=
       let '(s1, ok) := forward s id e in
       if negb ok then (s1, c_refused)
       else if delivered
-           then ({| plog := plog s1; phalt := phalt s1; rlock := rlock s1; rlog := e :: rlog s1; olog := olog s1 |}, c_ok)
+           then ({| plog := plog s1; phalt := phalt s1; rlock := rlock s1; rlog := e :: rlog s1; olog := olog s1; ohalt := ohalt s1 |}, c_ok)
            else (s1, c_applied_but_unacknowledged)
     end
   | ERelease sent =>
     match rlock s with
     | None => (s, c_refused)
     | Some (id, _) =>
-      let s1 := {| plog := plog s; phalt := phalt s; rlock := None; rlog := rlog s; olog := olog s |} in
+      let s1 := {| plog := plog s; phalt := phalt s; rlock := None; rlog := rlog s; olog := olog s; ohalt := ohalt s |} in
       ((if sent then release_primary s1 id else s1), c_ok)
     end
-  | EExpire => ({| plog := plog s; phalt := None; rlock := rlock s; rlog := rlog s; olog := olog s |}, c_ok)
+  | EExpire => ({| plog := plog s; phalt := None; rlock := rlock s; rlog := rlog s; olog := olog s; ohalt := None |}, c_ok)
   | EForeign id post =>
     let '(s1, ok) := forward s id (next_entry (plog s) post 2) in (s1, if ok then c_ok else c_refused)
   | ECommitWal post delivered =>
@@ -117,9 +135,10 @@ Definition step (s : sys) (e : ev) : sys * N :=
       let '(s1, ok) := forward s id e in
       if negb ok then (restart s1, c_refused)
       else if delivered
-           then ({| plog := plog s1; phalt := phalt s1; rlock := rlock s1; rlog := e :: rlog s1; olog := olog s1 |}, c_ok)
+           then ({| plog := plog s1; phalt := phalt s1; rlock := rlock s1; rlog := e :: rlog s1; olog := olog s1; ohalt := ohalt s1 |}, c_ok)
            else (restart s1, c_applied_but_unacknowledged)
     end
+  | EHandoff => if can_handoff s then (handoff s, c_ok) else (s, c_refused)
   | ERestart => (restart s, c_ok)
   end.
 
@@ -134,15 +153,19 @@ Definition stream_r (s : sys) : sys :=
   match find_tx (plog s) (fst (pos_of (rlog s)) + 1) with
   | None => s
   | Some e => if e_pre e =? snd (pos_of (rlog s))
-              then {| plog := plog s; phalt := phalt s; rlock := None; rlog := e :: rlog s; olog := olog s |}
+              then {| plog := plog s; phalt := phalt s; rlock := None; rlog := e :: rlog s; olog := olog s; ohalt := ohalt s |}
               else s
   end.
 Definition stream_o (s : sys) : sys :=
+  match ohalt s with
+  | Some _ => s       (* a former primary whose own halt lock is still held cannot take the write lock *)
+  | None =>
   match find_tx (plog s) (fst (pos_of (olog s)) + 1) with
   | None => s
   | Some e => if e_pre e =? snd (pos_of (olog s))
-              then {| plog := plog s; phalt := phalt s; rlock := rlock s; rlog := rlog s; olog := e :: olog s |}
+              then {| plog := plog s; phalt := phalt s; rlock := rlock s; rlog := rlog s; olog := e :: olog s; ohalt := ohalt s |}
               else s
+  end
   end.
 Fixpoint settle (fuel : nat) (s : sys) : sys :=
   match fuel with O => s | S f => settle f (stream_o (stream_r s)) end.
@@ -153,7 +176,7 @@ Definition step_settled (s : sys) (e : ev) : sys * N :=
 (* ---- correspondence ---- *)
 Definition obs_of (s : sys) (c : N) : list N :=
   [c; fst (pos_of (plog s)); snd (pos_of (plog s)); fst (pos_of (rlog s)); snd (pos_of (rlog s));
-   fst (pos_of (olog s)); snd (pos_of (olog s)); id_of (phalt s); id_of (rlock s)].
+   fst (pos_of (olog s)); snd (pos_of (olog s)); id_of (phalt s); id_of (rlock s); id_of (ohalt s)].
 Fixpoint run (s : sys) (es : list ev) : list (list N) :=
   match es with
   | [] => []
